@@ -136,6 +136,11 @@ func confirm(c *sched.Case, o *outcome) *outcome {
 		return o
 	}
 	o2 := executeOnce(c)
+	for _, k := range o.counts {
+		if strings.HasPrefix(k, "killed-at-limit") {
+			o2.counts = append(o2.counts, "first-run-"+k)
+		}
+	}
 	if len(o2.fails) == 0 {
 		o2.counts = append(o2.counts, "not-reproduced-on-rerun:"+o.fails[0][0])
 		return o2
@@ -152,6 +157,12 @@ func executeOnce(c *sched.Case) *outcome {
 		return &outcome{line: "run " + c.Encode(), out: "harness-error " + err.Error()}
 	}
 	o := judge(c, res.Events, res.RC, traceLine(c, res.Events, res.RC))
+	if res.RC == 124 {
+		o.counts = append(o.counts, fmt.Sprintf("killed-at-limit-after-%ds-without-events", int(res.Idle.Seconds())/10*10))
+		if len(o.fails) > 0 {
+			o.fails[0][2] += fmt.Sprintf(" | last event %.0f s before the kill", res.Idle.Seconds())
+		}
+	}
 	if len(o.fails) > 0 && res.Output != "" {
 		o.fails[0][2] += " | plz said: " + strings.ReplaceAll(lastLines(res.Output, 6), "\n", " / ")
 	}
@@ -294,7 +305,7 @@ func main() {
 		panic("VERIF_PLZ not set")
 	}
 	var cases []*sched.Case
-	for i := 0; i < r.N(12, 300); i++ {
+	for i := 0; i < r.N(12, 100); i++ {
 		base := genDAG(r.Rng, r)
 		for _, par := range []int{1, 2, 4, 16} {
 			c := *base
